@@ -1,6 +1,8 @@
 #!/bin/bash
 # Runs every claimed property's thorough check once (used with `vp run` for background sweeps).
 cd "$(dirname "$0")/.."
+# under `vp run --with-repo` build against the repository snapshot, not the live /repo
+if [ -n "${VP_RUN_REPO:-}" ]; then sed -i "s#path = \"/repo\"#path = \"$VP_RUN_REPO\"#" sim/Cargo.toml; fi
 for id in C13 C15 C11 C05 C16 C04 C09; do
   echo "=== $id thorough $(date +%T)"
   VERIF_NO_EVIDENCE=${VERIF_NO_EVIDENCE:-1} VERIF_LIST_ALL=1 ./check $id thorough 2>&1 | grep -vE "^\s+\|" | tail -25
